@@ -86,6 +86,29 @@ def fit_sphere(z):
     return pts, sphere
 
 
+def _as_floating(array):
+    """Return array unchanged if it is of floating point type, else converted.
+
+    Boolean and integer arrays (a 0/1 aperture mask used as a window, raw 8 or
+    16 bit data) are converted to config.precision: products and squares of
+    narrow integer types wrap around instead of widening.
+
+    Parameters
+    ----------
+    array : ndarray
+        any real array
+
+    Returns
+    -------
+    ndarray
+        array itself if floating point, else a floating point copy
+
+    """
+    if array.dtype.kind in 'fc':
+        return array
+    return array.astype(config.precision)
+
+
 def make_window(signal, dx, which=None, alpha=4):
     """Generate a window function to be used in PSD analysis.
 
@@ -110,7 +133,7 @@ def make_window(signal, dx, which=None, alpha=4):
     Returns
     -------
     ndarray
-        window array
+        window array, floating point
 
     """
     s = signal.shape
@@ -146,7 +169,9 @@ def make_window(signal, dx, which=None, alpha=4):
             else:
                 raise ValueError('unknown window type')
 
-    return which  # window provided as ndarray
+    # window provided as ndarray; a boolean or integer user array (a 0/1 aperture
+    # used as a rect window, 8 bit weights) is returned as floating point
+    return _as_floating(which)
 
 
 def psd(height, dx, window=None):
@@ -222,6 +247,8 @@ def bandlimited_rms(r, psd, wllow=None, wlhigh=None, flow=None, fhigh=None):
     period is used.  At least one of the four must be given.
 
     """
+    r = _as_floating(r)
+    psd = _as_floating(psd)
     default_max = r.max()
     if wllow is not None or wlhigh is not None:
         # spatial period given; an edge that is not given as a period keeps
